@@ -25,6 +25,7 @@ class Spy:
         self.gate_name = {}  # name -> (occurrence, Gate)
         self.delay = 0.0
         self.delay_fn = None  # callable(name, shown argument) -> virtual seconds, on top of `delay`
+        self.read_cap = None  # a backend that returns at most this many bytes per read() (short reads are legal)
         self.open_files = {}  # id(file) -> (path, mode)
         self.opened = 0
         self.closed = 0
@@ -158,6 +159,9 @@ def make_spy_factory(base_cls, spy):
         @ue
         async def read(self, file, *a, **kw):
             await spy.hit("read", a)
+            cap = getattr(spy, "read_cap", None)
+            if cap and (not a or a[0] is None or a[0] < 0 or a[0] > cap):
+                a = (cap,) + tuple(a[1:])
             return await super().read(file, *a, **kw)
 
         @ue
